@@ -6,8 +6,8 @@ Transcripts come from `harness/scen/peerfail.cpp` and use the event vocabulary o
 
 * **spec**: every line is parsed into a typed observation (`toObs`, `PeerFail.Spec.Obs`) and the property
   predicate of `Spec/C15.lean` - `specRun`, then `specFinal` - is evaluated on the observations only.  This file
-  contains no property clause of its own (one source of truth; `PeerFail.Spec.model_satisfies_spec` proves that the
-  predicate accepts every trace of the model).
+  contains no property clause of its own (one source of truth; `PeerFail.Spec.model_satisfies_spec_partial` proves that the
+  predicate accepts every trace of the plain-socket model).
 * **correspondence**: the machinery of the C18 driver is reused (`C18.go` with hooks that check nothing): the
   kernel's (and, for TLS, the engine's) answers are replayed into the model, which must make the same calls and
   produce the same outcome - i.e. the observed outcome is a member of the set the model allows for this
